@@ -18,11 +18,17 @@ branch of the model):
 * `C04_tok_eof_is_last`: when the `eof_step` loop of `end()` finishes, the last token delivered is EOF
   (that it is the only one is counted by the harness on every case).
 
-`C04_partial`: NOT proved — a fuel bound for `run` (the model driver uses `4·(unread + stashed) +
-16` steps per feed and reports `OUT-OF-FUEL` otherwise; it never did on any case); totality of the tree
-builders and of xml5ever; real stack depth, allocation failure and wall-clock time, which no model can
-exhibit. Those are exercised by the harness (`catch_unwind`, shard watchdog with bisection, 10^5-deep
-nesting families, queue-drained and single-EOF counters).
+Continued in `Props/C04Term.lean` (**termination**: a measure `mu m inp` — 16 per unread or stashed
+character, plus the characters that can still travel through a named reference's `name_buf`, plus
+small ranks for pending reconsume / look-ahead / character-reference sub-states — strictly decreases on
+every step that answers Continue and is below `fuelFor m inp`, so `run`, `feed` never run out of fuel;
+`end()` is total and delivers EOF last) and `Props/C04Xml.lean` (the no-panic invariant, feed-drains
+and EOF-last theorems ported to the XML tokenizer model).
+
+`C04_partial`: NOT proved — totality of the tree builders; a fuel bound for the XML tokenizer's `run`;
+real stack depth, allocation failure and wall-clock time, which no model can exhibit. Those are
+exercised by the harness (`catch_unwind`, per-case watchdog with bisection, 10^5-deep nesting
+families, queue-drained and single-EOF counters).
 -/
 namespace H5V.Props.C04
 open H5V.Model.HtmlTok
